@@ -1,4 +1,5 @@
 import UtilModel.Lemmas.DateBasics
+import UtilModel.Lemmas.CodeTies
 /-!
 # C07 — Date ordering and arithmetic agree with the calendar
 
@@ -147,5 +148,14 @@ example : (new 2024 3 1).daysBetween (new 2024 2 1) = 29 := by decide
 example : (new 2024 1 31).add 0 1 0 = new 2024 3 2 := by decide
 example : (new 2024 3 1).addDuration (-1) = new 2024 2 29 := by decide
 example : fromTime (((new 2024 3 1).ordinal - 1) * 86400 - 3600) 0 7200 = new 2024 3 1 := by decide
+
+/-- **tie to the source**: `After`, `Before`, `Equal`, `IsZero` as translated statement by statement from
+`date/date.go` on this run (`Gen.date_*`) compute exactly what the model functions above compute -/
+theorem order_code_tie (d e : Date) :
+    d.after e = Gen.date_After d.year d.month d.day e.year e.month e.day ∧
+    d.before e = Gen.date_Before d.year d.month d.day e.year e.month e.day ∧
+    d.equal e = Gen.date_Equal d.year d.month d.day e.year e.month e.day ∧
+    d.isZero = Gen.date_IsZero d.year d.month d.day :=
+  ⟨CodeTies.after_tie d e, CodeTies.before_tie d e, CodeTies.equal_tie d e, CodeTies.isZero_tie d⟩
 
 end U.Props.C07
